@@ -36,6 +36,24 @@ Theorem C05_attr_safe : forall s, xml_str s = true -> no_ws_ctl s = true ->
 Proof. exact attr_safe. Qed.
 Print Assumptions C05_attr_safe.
 
+(** with TAB, LF and CR written as character references as well: every string, no guard *)
+Theorem C05_attr_safe_ws : forall s, xml_str s = true ->
+  lex_attr (c_quot :: sax_escape_qw s ++ [c_quot]) = OneValue s.
+Proof. exact attr_safe_w. Qed.
+Print Assumptions C05_attr_safe_ws.
+
+(** element text with the carriage return written as a reference: every string, no guard *)
+Theorem C05_text_safe_cr : forall s q t l, xml_str s = true ->
+  lex_text (sax_escape_g q t l true s) = OneText s.
+Proof. intros; apply text_safe_r; auto. Qed.
+Print Assumptions C05_text_safe_cr.
+
+(** escape with any sub-dictionary of quote / TAB / LF / CR is the per-character substitution *)
+Theorem C05_escape_dict_single_pass : forall q t l r s,
+  sax_escape_g q t l r s = flat_map (esc_char_g q t l r) s.
+Proof. exact sax_escape_g_flat. Qed.
+Print Assumptions C05_escape_dict_single_pass.
+
 (** plain saxutils.escape is not enough inside an attribute value: witness the double quote *)
 Theorem C05_attr_sax_refuted : exists s, xml_str s = true /\ no_ws_ctl s = true /\
   lex_attr (c_quot :: sax_escape s ++ [c_quot]) <> OneValue s.
@@ -66,19 +84,27 @@ Theorem C05_cdata_end_absent : forall s, ~ In c_gt (sax_escape s) /\
 Proof. intros s. split; [apply no_gt_after_escape | apply no_cdata_end_after_escape]. Qed.
 Print Assumptions C05_cdata_end_absent.
 
-(** the decision table is sound ... *)
+(** the decision table (the slot gives back EXACTLY the string, for every string) is sound ... *)
 Theorem C05_sink_ok_sound : forall cx e, sink_ok cx e = true ->
-  forall s, xml_str s = true -> (e = NotText -> plain s = true) ->
-  lex_slot cx (apply_esc e s) = Got (norm cx s).
+  forall s, xml_str s = true -> (e = NotText -> plain s = true /\ no_ws_ctl s = true) ->
+  lex_slot cx (apply_esc e s) = Got s.
 Proof. exact sink_ok_sound. Qed.
 Print Assumptions C05_sink_ok_sound.
 
-(** ... and exact: every rejected combination has a string that goes wrong *)
+(** ... and exact: every rejected combination has a string that does not come back
+    (the double quote, TAB, LF or CR in an attribute; CR in text; the ampersand without escaping) *)
 Theorem C05_sink_ok_complete : forall cx e, sink_ok cx e = false ->
-  xml_str (witness cx e) = true /\ no_ws_ctl (witness cx e) = true /\
-  lex_slot cx (apply_esc e (witness cx e)) <> Got (norm cx (witness cx e)).
+  xml_str (witness cx e) = true /\
+  lex_slot cx (apply_esc e (witness cx e)) <> Got (witness cx e).
 Proof. exact sink_ok_complete. Qed.
 Print Assumptions C05_sink_ok_complete.
+
+(** the weaker table (markup safety): whatever white space does, the slot is never broken *)
+Theorem C05_markup_ok_sound : forall cx e, markup_ok cx e = true ->
+  forall s, xml_str s = true -> (e = NotText -> plain s = true) ->
+  lex_slot cx (apply_esc e s) <> Broken.
+Proof. exact markup_ok_sound. Qed.
+Print Assumptions C05_markup_ok_sound.
 
 (** nothing the translator met was left unmodelled *)
 Theorem C05_no_unmodelled : n_unmodelled = 0%nat.
@@ -87,28 +113,27 @@ Print Assumptions C05_no_unmodelled.
 
 (** INSTANCE: every template slot of python-pptx (except recorded findings), for every
     string of XML characters (values that are not caller text: for every string without
-    markup metacharacters): the parsed template holds exactly one value / text node, the
-    normalised string *)
+    markup metacharacters and TAB / LF / CR): the parsed template holds exactly one value /
+    text node, the string itself *)
 Theorem C05_all_sinks : forall k, In k sinks -> memN (sk_id k) known_failing = false ->
-  forall s, xml_str s = true -> (sk_esc k = NotText -> plain s = true) ->
-  lex_slot (sk_ctx k) (apply_esc (sk_esc k) s) = Got (norm (sk_ctx k) s).
+  forall s, xml_str s = true -> (sk_esc k = NotText -> plain s = true /\ no_ws_ctl s = true) ->
+  lex_slot (sk_ctx k) (apply_esc (sk_esc k) s) = Got s.
 Proof. exact all_sinks_safe. Qed.
 Print Assumptions C05_all_sinks.
-
-Theorem C05_all_sinks_exact : forall k, In k sinks -> memN (sk_id k) known_failing = false ->
-  forall s, xml_str s = true -> no_ws_ctl s = true -> (sk_esc k = NotText -> plain s = true) ->
-  lex_slot (sk_ctx k) (apply_esc (sk_esc k) s) = Got s.
-Proof. exact all_sinks_exact. Qed.
-Print Assumptions C05_all_sinks_exact.
 
 (** recorded findings are real *)
 Theorem C05_known_failing_refuted : forall k, In k sinks -> memN (sk_id k) known_failing = true ->
   xml_str (sink_witness k) = true /\
-  lex_slot (sk_ctx k) (apply_esc (sk_esc k) (sink_witness k)) <> Got (norm (sk_ctx k) (sink_witness k)).
+  lex_slot (sk_ctx k) (apply_esc (sk_esc k) (sink_witness k)) <> Got (sink_witness k).
 Proof. exact known_failing_refuted. Qed.
 Print Assumptions C05_known_failing_refuted.
 
 (** non-vacuity *)
+Example C05_ex_ws :
+  let s := [97; c_tab; c_lf; c_cr; c_lf; c_cr; c_quot; c_amp; 98]%N in
+  xml_str s = true /\ lex_slot AttrDq (sax_escape_qw s) = Got s /\ lex_slot Text (sax_escape_g false false false true s) = Got s
+  /\ lex_slot AttrDq (sax_escape_q s) = Got [97; c_sp; c_sp; c_sp; c_sp; c_quot; c_amp; 98]%N.
+Proof. vm_compute. repeat split. Qed.
 Example C05_ex_guards :
   let s := [97; c_amp; c_lt; c_gt; c_quot; c_apos; c_rbr; c_rbr; c_gt; 233; 128512]%N in
   xml_str s = true /\ no_ws_ctl s = true /\ no_cr s = true
